@@ -330,6 +330,18 @@ Definition read_egroups (bs : list pblock) (all_ids : list Z)
     Ok (fold_left (fun d kv => dict_set (fst kv) (snd kv) d) pairs [("ALL", all_ids)])
   end.
 
+(* _read_node_groups: ALL = the node ids as read (before remove_useless_nodes),
+   then one group per !NGROUP block (merged by name when _merge_groups is used) *)
+Definition read_node_groups (bs : list pblock) (node_ids : list Z)
+  : result (list (string * list Z)) :=
+  let names := captures "NGRP=" (extract_headers "!NGROUP" bs) in
+  vals <- mapM parse_ints_rank1 (extract_blocks "!NGROUP" bs) ;;
+  let pairs := if merge_ngroups
+               then fold_left (fun acc kv => dict_append (fst kv) (snd kv) acc)
+                              (combine names vals) []
+               else combine names vals in
+  Ok (fold_left (fun d kv => dict_set (fst kv) (snd kv) d) pairs [("ALL", node_ids)]).
+
 Definition read_sections (bs : list pblock)
   : result (list (string * (string * string))) :=
   let hs := extract_headers "!SECTION" bs in
@@ -441,6 +453,12 @@ Definition read_blocks (bs : list pblock) : result mesh :=
 Definition read_msh_with (pats : list ipat) (ls : list string) : result mesh :=
   read_blocks (parse_blocks pats ls).
 
+(* the node groups femio holds after reading the .msh (used by the .cnt reader, C03) *)
+Definition read_ngroups_with (pats : list ipat) (ls : list string)
+  : result (list (string * list Z)) :=
+  let bs := parse_blocks pats ls in
+  nodes <- read_nodes bs ;; read_node_groups bs (map fst nodes).
+
 (* the reader of the tree under test *)
 Definition read_msh (ls : list string) : result mesh := read_msh_with ignore_pats ls.
 
@@ -455,6 +473,14 @@ Definition show_mesh (m : mesh) : list string :=
 
 Definition show_result (r : result mesh) : list string :=
   match r with Ok m => show_mesh m | Err _ => ["ERROR"] end.
+
+Definition read_ngroups (ls : list string) := read_ngroups_with ignore_pats ls.
+
+Definition show_groups (r : result (list (string * list Z))) : list string :=
+  match r with
+  | Ok gs => flat_map (fun g => [("GROUP " ++ fst g)%string; join "," (map print_Z (snd g))]) gs
+  | Err _ => ["ERROR"]
+  end.
 
 Definition show_lines (r : result (list string)) : list string :=
   match r with Ok ls => ls | Err _ => ["ERROR"] end.
